@@ -80,6 +80,18 @@ Theorem chain_call_reviewed :
   In ("verifyOne"%string, [AOther; AOpts]) (named_calls p_verify_cmd).
 Proof. exact C02.Proofs.chain_call_reviewed. Qed.
 
+(* ---- trust anchors: which pool loadCerts builds (nil = system roots only when NO X.509 anchor was given; a new pool with exactly the
+   given certificates unless --system-store), and the RPM glue's treatment of signatures by keys outside the keyring *)
+Theorem load_certs_pool_spec certs_ok have_x509 system sys_ok n :
+  let r := run_fn (oracle_of_load certs_ok have_x509 system sys_ok n) (f_prog p_load_certs) in
+  (exists v, fst r = KRet v /\ (v = None <-> certs_ok && (negb have_x509 || negb system || sys_ok) = true)) /\
+  (fst r = KRet None -> pool_effects (s_out (snd r)) = spec_pool have_x509 system /\ addcert_calls (snd r) = if have_x509 then n else 0).
+Proof. exact (C02.Proofs.load_certs_pool_spec certs_ok have_x509 system sys_ok n). Qed.
+Theorem rpm_unknown_key_rejected no_chain n seen nosigner :
+  let r := run_fn (oracle_of_rpm no_chain n seen nosigner) (f_prog p_rpm_verify) in
+  exists v, fst r = KRet v /\ (v = None <-> negb (Nat.eqb n 0) && forallb (rpm_sig_ok no_chain seen nosigner) (seq 0 n) = true).
+Proof. exact (C02.Proofs.rpm_unknown_key_rejected no_chain n seen nosigner). Qed.
+
 (* ---- dispatch *)
 Theorem by_magic_sound regs m r : by_magic regs m = Some r -> In r regs /\ r_magic r = m /\ m <> file_type_unknown.
 Proof. exact (C02.Proofs.by_magic_sound regs m r). Qed.
@@ -153,3 +165,6 @@ Example ex_digests_flag : forallb (digest_args_false (fun f => Nat.eqb f 4)) sig
 Example ex_dispatch_pe : option_map r_name (dispatch registered_signers 6 (fun _ => false)) = Some "pe-coff"%string. Proof. vm_compute. reflexivity. Qed.
 Example ex_dispatch_unknown : dispatch registered_signers 0 (fun _ => false) = None. Proof. vm_compute. reflexivity. Qed.
 Example ex_dispatch_ps : option_map r_name (dispatch registered_signers 0 (fun r => String.eqb (r_name r) "ps")) = Some "ps"%string. Proof. vm_compute. reflexivity. Qed.
+Example ex_pool_new : pool_effects (s_out (snd (run_fn (oracle_of_load true true false true 2) (f_prog p_load_certs)))) = [4]. Proof. vm_compute. reflexivity. Qed.
+Example ex_rpm_unknown : fst (run_fn (oracle_of_rpm false 2 (fun _ => false) (fun i => Nat.eqb i 1)) (f_prog p_rpm_verify)) = KRet (Some (OFresh 1, 0)). Proof. vm_compute. reflexivity. Qed.
+Example ex_rpm_known : fst (run_fn (oracle_of_rpm false 2 (fun _ => false) (fun _ => false)) (f_prog p_rpm_verify)) = KRet None. Proof. vm_compute. reflexivity. Qed.
